@@ -100,10 +100,10 @@ class LinearOperator(EditableModule):
             if mat.shape[-2] != mat.shape[-1]:
                 is_hermitian = False
             else:
-                is_hermitian = torch.allclose(mat, mat.transpose(-2, -1).conj())
+                is_hermitian = _is_hermitian_matrix(mat)
         elif is_hermitian:
             # check the hermitian
-            if not torch.allclose(mat, mat.transpose(-2, -1).conj()):
+            if not _is_hermitian_matrix(mat):
                 raise RuntimeError("The linear operator is indicated to be hermitian, but the matrix is not")
 
         return MatrixLinearOperator(mat, is_hermitian)
@@ -815,6 +815,16 @@ def checklinop(linop: LinearOperator) -> None:
     for (rmv_xshape, rmv_yshape) in zip(rmv_xshapes, rmv_yshapes):
         runtest("rmv", rmv_xshape, rmv_yshape)
         runtest("rmm", (*rmv_xshape, r), (*rmv_yshape, r))
+
+########### matrix helper functions ###########
+def _is_hermitian_matrix(mat: torch.Tensor) -> bool:
+    # compare the matrix with its adjoint relative to the magnitude of its
+    # elements (a fixed absolute tolerance would accept any matrix whose
+    # elements are small, i.e. it would depend on the units of the matrix)
+    if mat.numel() == 0:
+        return True
+    scale = float(mat.detach().abs().max())
+    return torch.allclose(mat, mat.transpose(-2, -1).conj(), atol=1e-8 * scale)
 
 ########### repr helper functions ###########
 def _indent(s, nspace):
